@@ -289,6 +289,39 @@ func init() {
 						c.Violation(fmt.Sprintf("in-tree:%d", place), why, map[string]any{"files": describeFiles(files), "data": model.DescribeData(data), "expected": expectText(exp)})
 					}
 				}})
+			// (2e) conditions on component arguments: the value an argument has is the one its expression has at the place of use
+			// (an argument may be named like a variable of the page that another argument reads)
+			secs = append(secs, core.Section{Name: "conditions-on-component-arguments", Exhaustive: true, N: len(condTable) * len(condTable),
+				Run: func(c *core.Ctx, i int) {
+					outer, arg := condTable[i/len(condTable)], condTable[i%len(condTable)]
+					if outer.v.K == model.KNil || arg.v.K == model.KNil || outer.v.K != arg.v.K {
+						return // an argument named like a visible variable must have its type (C04); nil cannot be written in every place
+					}
+					data := map[string]model.Value{"count": outer.v}
+					t := newTree("c02args", ".tw")
+					show := model.Var{Name: "show"}
+					t.files["components/badge"] = []model.Stmt{model.Text{S: "<"}, model.If{Conds: []model.Expr{show}, Bodies: [][]model.Stmt{{model.Text{S: "T"}}}, Else: []model.Stmt{model.Text{S: "F"}}},
+						model.Print{E: model.Ternary{C: show, A: model.Lit{V: model.Int(1)}, B: model.Lit{V: model.Int(2)}}},
+						model.Each{Var: "k", Arr: intArr(1, 2), Body: []model.Stmt{model.Print{E: model.Var{Name: "k"}}, model.BreakIf{E: show}}}, model.Text{S: ">"}}
+					// "count" sorts before "show": show reads the page's count, not the argument of the same call
+					t.files["page"] = []model.Stmt{model.Text{S: "p:"}, model.Component{Name: "~badge", Args: &model.ObjLit{Keys: []string{"count", "show"}, Vals: []model.Expr{literalOf(arg.v), model.Var{Name: "count"}}}},
+						model.Component{Name: "~badge", Args: &model.ObjLit{Keys: []string{"show", "count"}, Vals: []model.Expr{model.Var{Name: "count"}, literalOf(arg.v)}}}, model.Text{S: ":q"}}
+					files := t.sources(model.Style{Layout: model.SpaceLayout})
+					tpl, err := loadTree(c, "c02args", files, ".tw")
+					c.Nontrivial(fmt.Sprint(files, data))
+					if err != nil {
+						c.Violation("component-arguments:load-failed", err.Error(), map[string]any{"files": describeFiles(files)})
+						return
+					}
+					if tpl == nil {
+						return
+					}
+					exp := t.expectPage("page", data)
+					got, _ := renderPage(c, tpl, "page", model.NativeData(data))
+					if why := compare(exp, got, false, nil); why != "" {
+						c.Violation("component-arguments", why, map[string]any{"files": describeFiles(files), "data": model.DescribeData(data), "expected": expectText(exp)})
+					}
+				}})
 			// (3) an erroring expression at every position: it must surface up to the chosen branch and never after it
 			errExprs := []model.Expr{
 				model.Var{Name: "undefinedName"},
